@@ -82,7 +82,8 @@ def _gen_ios(cfg, pool, conns, depth, p_clock, allow_diff=True):
         node["dir"] = d = cfg.choice(["i", "o"])      # the open-toolchain platforms reject bidirectional differential buffers
     else:
         node["pins"] = draw(width)
-    if width == 1 and d == "i" and cfg.random() < p_clock:
+    # (a clock may be declared on a port of several pins too - a bus of forwarded clocks: the constraint then names the whole port)
+    if d == "i" and cfg.random() < (p_clock if width == 1 else p_clock * 0.4):
         node["clock_mhz"] = cfg.choice([12, 25, 48, 50, 100, 133, 0.032768, 1.8432, 25.175, 33.333333, 0.001, 7.3728])
     return node
 
